@@ -63,6 +63,20 @@ Theorem C06_sound_meta_rejects :
 Proof. exact binding_tamper_rejected. Qed.
 Print Assumptions C06_sound_meta_rejects.
 
+(* The boundary of the check (why C06_sound_meta needs equal read-back options): nonce,
+   version and the updatable bit are options read back from the claim itself, so an accepted
+   claim stays accepted when they are overwritten - it is then the claim of the same credential
+   under those options (C06_exact).  They are protected by the signature / inclusion proof over
+   the claim (C07, C08), which VerifyProof checks after this check. *)
+Theorem C06_option_fields_free :
+  forall (O : oracles) (c : cred) (cl : claim) (n v : Z) (b : bool),
+  verify_binding O c cl = Ok tt ->
+  verify_binding O c (set_revocation_nonce cl n) = Ok tt /\
+  verify_binding O c (set_version cl v) = Ok tt /\
+  verify_binding O c (set_flag_updatable cl b) = Ok tt.
+Proof. exact binding_option_fields_free. Qed.
+Print Assumptions C06_option_fields_free.
+
 (* Soundness, document side: two credentials accepted for one claim agree on
    everything the claim is computed from: both are merklized or both serialized
    (nm), equal schema hash, equal Merkle root (merklized) or equal four data slots
